@@ -4,7 +4,7 @@ import sym
 
 CONFIGS_QUICK = ["F_def", "F_all"]  # every configuration whose cfg-gated code the property depends on
 CONFIGS_THOROUGH = ["F_def", "F_all"]
-TECHNIQUE = 'static analysis: decision-table extraction (emit_end) by symbolic path walking over rustc MIR, operand provenance of the comparison, push/pop/truncate pairing, options-during-skip rule (C12 R1 re-evaluated)'
+TECHNIQUE = 'static analysis: decision-table extraction (emit_end) by symbolic path walking over rustc MIR, operand provenance of the comparison, push/pop/truncate pairing, options-during-skip rule (C12 R1 re-evaluated), unconditional synthetic-End rule for state InsideEmpty'
 EXPLANATION = (
     "Decision table of ReaderState::emit_end extracted path by path from MIR (atoms: result of "
     "opened_starts.pop(), config.check_end_names, config.allow_unmatched_ends, result of the slice "
